@@ -219,8 +219,9 @@ class MVModel:
         raise OutOfSubset(f'multivector.{name} not modelled here')
 
 
-def vc_grade(H):
-    """C04: a.grade(..) returns exactly the stored coefficients of the requested grades."""
+def vc_grade(H, frame=False):
+    """C04: a.grade(..) returns exactly the stored coefficients of the requested grades.
+    frame=True (C09 only): the result must not share its coefficient storage with the operand."""
     fuc = H.fn(MV, 'MultiVector.grade')
     for form in ('ints', 'tuple'):
         def body(ctx, form=form):
@@ -234,8 +235,15 @@ def vc_grade(H):
             if not ok:
                 return r
             ks, vs = r[2], r[3]
-            ctx.oblige('frame (C09): the result does not share its coefficient storage with the operand',
-                       not (isinstance(vs, SymSeq) and not isinstance(vs, CompSeq) and getattr(vs, 'getter', None) == me.val))
+            shared = isinstance(vs, SymSeq) and not isinstance(vs, CompSeq) and getattr(vs, 'getter', None) == me.val
+            if frame:
+                ctx.oblige('frame (C09): the result does not share its coefficient storage with the operand', not shared)
+            if shared and frame:
+                return r
+            if shared:
+                # a path that hands back the operand's own keys and values: blade-wise trivially "exactly the stored coefficients";
+                # whether those are exactly the requested grades depends on the path condition, which this contract does not model
+                raise OutOfSubset('grade(): path returning the stored keys/values unchanged (not modelled; bounded stand-in decides)')
             okc = isinstance(ks, CompSeq) and isinstance(vs, CompSeq) and getattr(ks, 'base', None) is getattr(vs, 'base', 0) and ks.part == 'keys' \
                 and vs.part == 'values' and hasattr(ks.base.src, 'grades')
             ctx.oblige('post: keys and values are the two halves of one selection (aligned)', bool(okc))
